@@ -33,6 +33,7 @@ KINDS = [
     ('precondition not satisfied', 'requires'),
     ('invariant not satisfied', 'invariant'),
     ('loop invariant', 'invariant'),
+    ('type invariant', 'invariant'),
     ('possible arithmetic underflow/overflow', 'panic'),
     ('possible division by zero', 'panic'),
     ('possible bit shift underflow/overflow', 'panic'),
@@ -162,7 +163,7 @@ def run(unit_text, workdir, name, rlimit=None, seed=None, extra=(), census=True,
 def _is_verification_msg(msg):
     ml = msg.lower()
     return any(x in ml for x in ('not satisfied', 'assertion', 'overflow', 'underflow', 'termination',
-                                 'decreases', 'recommendation', 'resource limit', 'rlimit', 'division by zero'))
+                                 'decreases', 'recommendation', 'type invariant', 'resource limit', 'rlimit', 'division by zero'))
 
 
 _FD = re.compile(r'^;; Function-(?:Def|Decl-Check-Recommends|Recommend|Termination\S*|\S+) (\S+)')
